@@ -591,8 +591,15 @@ func (m *vMonitor) detach(info *vVMInfo, gen int, inner test.SSHExecFunc, env ma
 		tr.starts++
 	}
 	if gen != m.curGen || m.isDead(gen) {
-		// arrived just before its generation died; judged by that
-		// generation's rules is impossible now, skip the decision checks
+		// The command got through just before its generation died and the
+		// process came into being around the restart: for the next
+		// generation it is a process left over by its predecessor.
+		if res.newPID != 0 {
+			if m.inherited[uuid] == nil {
+				m.inherited[uuid] = map[vProcRef]bool{}
+			}
+			m.inherited[uuid][vProcRef{info.id, res.newPID}] = true
+		}
 		return rc
 	}
 
